@@ -357,6 +357,10 @@ class SymE(object):
     def sqrt(self, x):
         return self.e.spec_sqrt(x)
 
+    def code_sqrt(self, x):
+        """the symbol math.sqrt(x) denotes in the executed code (sqrt is memoised per canonical argument); x >= 0"""
+        return self.e.sqrt(x)
+
     def cos(self, x):
         return self.e.cos(x)
 
@@ -795,6 +799,9 @@ class ConcE(object):
 
     # math
     def sqrt(self, x):
+        return TF(math.sqrt(x)) if x >= 0 else TF(0.0)
+
+    def code_sqrt(self, x):
         return TF(math.sqrt(x)) if x >= 0 else TF(0.0)
 
     def cos(self, x):
